@@ -34,6 +34,10 @@ AX_BRIDGE = [
     z3.ForAll([_pq], SrcOf(_pq) == _A.SrcSetG(pn_graph(_pq)), patterns=[SrcOf(_pq)]),
     z3.ForAll([_pq, _nq], z3.Implies(z3.And(_P.PNGraph.nodes(pn_graph(_pq))[_nq], _P.is_place(_nq)), _nq == _P.place(_P.pvar(_nq), _P.ppos(_nq))),
               patterns=[_P.PNGraph.nodes(pn_graph(_pq))[_nq]]),
+    # nodes of such a graph are places or transitions, and a node of kind `place` is named like one
+    z3.ForAll([_pq, _nq], z3.Implies(_P.PNGraph.nodes(pn_graph(_pq))[_nq], z3.And(
+        z3.Or(_A.kind_of(_nq) == 0, _A.kind_of(_nq) == 1), z3.Implies(_A.kind_of(_nq) == 0, _P.is_place(_nq)))),
+              patterns=[_P.PNGraph.nodes(pn_graph(_pq))[_nq]]),
 ]
 
 
